@@ -99,7 +99,7 @@ def classify_death(returncode, stderr_text, timed_out=False):
             kind = m.group(1)
             if kind in OOB:
                 kind = 'oob'
-            elif kind == 'heap-use-after-free':
+            elif kind in ('heap-use-after-free', 'use-after-poison'):
                 kind = 'uaf'
             elif kind in ('SEGV', 'BUS', 'FPE', 'ILL'):
                 kind = kind.lower()
